@@ -19,6 +19,12 @@ class AnalysisError(Exception):
     """An anchor the rule needs is missing or the engine cannot interpret the code."""
 
 
+class Uninterpretable(AnalysisError):
+    """A statement kind one of the engines does not model, met in code that exists: reported as an undischarged obligation
+    (a violation) by check.py, never as a pass."""
+
+
+
 def norm_src(node):
     """Normalised source text of an AST node (no line numbers, no formatting)."""
     if isinstance(node, str):
